@@ -73,6 +73,38 @@ def gen_cfn_doc(rng, scalars=SCALARS, keys=KEYS, nres=None):
     return doc
 
 
+def gen_tf_doc(rng, scalars=SCALARS, keys=KEYS, nres=None, wellformed=None):
+    """Terraform-plan-shaped document: the console reporter of `validate` switches to its Terraform view whenever the
+    root has `resource_changes`. wellformed=False lets the shape drift (map instead of list, address missing / not a string /
+    without a dot, no change.after) - still ordinary JSON the tool must cope with."""
+    nres = rng.randint(1, 4) if nres is None else nres
+    wellformed = (rng.random() < 0.7) if wellformed is None else wellformed
+    changes = []
+    for i in range(nres):
+        after = {k: gen_value(rng, 2, scalars, keys) for k in rng.sample(keys[:6], rng.randint(1, 3))}
+        rc = {"address": "aws_s3_bucket.b%d" % i, "type": "aws_s3_bucket", "name": "b%d" % i,
+              "change": {"actions": ["create"], "before": None, "after": after}}
+        if not wellformed:
+            r = rng.random()
+            if r < 0.15:
+                del rc["address"]
+            elif r < 0.3:
+                rc["address"] = rng.choice([5, None, ["a.b"], {"x": "a.b"}])
+            elif r < 0.45:
+                rc["address"] = rng.choice(["nodot", "", ".", "é.ü"])
+            elif r < 0.55:
+                del rc["change"]["after"]
+            elif r < 0.65:
+                rc["change"] = rng.choice([None, "x", []])
+        changes.append(rc)
+    doc = {"format_version": "1.1", "terraform_version": "1.5.0", "resource_changes": changes}
+    if not wellformed and rng.random() < 0.3:
+        doc["resource_changes"] = {("k%d" % i): c for i, c in enumerate(changes)}
+    if rng.random() < 0.3:
+        doc["a"] = gen_value(rng, 2, scalars, keys)
+    return doc
+
+
 def gen_doc(rng, **kw):
     if rng.random() < 0.5:
         return gen_generic_doc(rng, **kw)
@@ -537,9 +569,19 @@ def gen_walk(rng, v, o, maxsteps=4, allow_filter=True, depth=0, first=True):
                 elif form < 0.7:
                     q.append(["keysfilter", "==", ["lit", {"$re": "^" + k0[:1]}]])
                     v = rng.choice([v[k] for k in ks if k.startswith(k0[:1])])
-                else:
+                elif form < 0.8:
                     q.append(["keysfilter", "in", ["lit", [k0, "nokey"]]])
                     v = v[k0]
+                else:
+                    # inequality / negated membership on key names
+                    op = rng.choice(["!=", "not in"])       # the grammar has no ordering operators on keys
+                    import operator
+                    fn = {"!=": operator.ne, "not in": operator.ne}[op]
+                    q.append(["keysfilter", op, ["lit", [k0, "nokey"]] if op == "not in" else ["lit", k0]])
+                    match = [k for k in ks if fn(k, k0)]
+                    if not match:
+                        return q, None
+                    v = v[rng.choice(match)]
                 continue
             if r < 0.72:
                 k = rng.choice(list(v))
